@@ -40,6 +40,10 @@ macro_rules! println {
 
 include!("uci_bestmove_extracted.rs");
 
+// the argument parser of the `go` arm: the statements between `let mut search_time ..` and the book lookup, verbatim, as
+// `fn uci_go_args(args: &[&str]) -> (Option<f64>, Option<usize>)` (its `println!` goes to the same sink)
+include!("uci_go_args_extracted.rs");
+
 fn sq_index(s: Square) -> u8 {
     s.into()
 }
@@ -132,4 +136,65 @@ fn c12_uci_bestmove_line_contract() {
     }
     kani::cover!(m.promotion() == Some(Piece::Knight), "promotion reachable");
     kani::cover!(m.promotion().is_none(), "plain reachable");
+}
+
+/// The `go` argument parser is total on arbitrary tokens (up to three tokens of up to five bytes, ASCII plus one wide char in
+/// the first), never panics or overflows, and understands `depth N` and `movetime N`.
+#[kani::proof]
+#[kani::unwind(18)]
+fn c14_uci_go_args_total() {
+    let mut b0 = [0u8; 16];
+    let mut b1 = [0u8; 16];
+    let mut b2 = [0u8; 16];
+    let t0: &str = weechess_core::notation::verif_c12::any_text(&mut b0, 5);
+    // the keyword position: arbitrary text or one of the two keywords
+    let which: u8 = kani::any();
+    let t0: &str = match which {
+        0 => "depth",
+        1 => "movetime",
+        _ => t0,
+    };
+    let n1: usize = kani::any();
+    let n2: usize = kani::any();
+    kani::assume(n1 <= 5 && n2 <= 5);
+    let mut i = 0;
+    while i < 5 {
+        let c: u8 = kani::any();
+        kani::assume(c < 128);
+        b1[i] = c;
+        let c: u8 = kani::any();
+        kani::assume(c < 128);
+        b2[i] = c;
+        i += 1;
+    }
+    let t1 = std::str::from_utf8(&b1[..n1]).unwrap();
+    let t2 = std::str::from_utf8(&b2[..n2]).unwrap();
+    let count: usize = kani::any();
+    kani::assume(count <= 3);
+    let all = [t0, t1, t2];
+    let (time, depth) = uci_go_args(&all[..count]);
+    // a well-formed `depth N` / `movetime N` (N of 1..=3 decimal digits) sets exactly that limit
+    let digits = n1 >= 1 && n1 <= 3 && b1[0].is_ascii_digit() && (n1 < 2 || b1[1].is_ascii_digit()) && (n1 < 3 || b1[2].is_ascii_digit());
+    if count == 2 && digits {
+        let mut v: usize = 0;
+        let mut k = 0;
+        while k < 3 {
+            if k < n1 {
+                v = v * 10 + (b1[k] - b'0') as usize;
+            }
+            k += 1;
+        }
+        if which == 0 {
+            assert!(depth == Some(v) && time.is_none());
+        }
+        if which == 1 {
+            assert!(depth.is_none() && time == Some(v as f64 / 1000.0));
+        }
+    }
+    if count == 0 {
+        assert!(time.is_none() && depth.is_none());
+    }
+    kani::cover!(which == 0 && count == 2 && digits, "depth limit reachable");
+    kani::cover!(which == 1 && count == 2 && digits, "movetime reachable");
+    kani::cover!(which > 1 && count == 3, "garbage reachable");
 }
